@@ -98,6 +98,50 @@ inline VolImage encodeVol(const std::vector<VolMember>& ms, uint32_t spareSlots 
 	return im;
 }
 
+// A format-conforming VOL too large to hold in memory: members with virtualLen[i] != 0 are stored blocks of that many zero bytes
+// (holes of a sparse file). Returns the materialised pieces (header; block headers; small payloads) with their file offsets.
+struct VolSparseImage {
+	std::vector<std::pair<uint64_t, std::vector<uint8_t>>> pieces;
+	std::vector<uint64_t> blockOffsets;
+	uint64_t total = 0;
+	bool representable = true; // every block offset fits the 32-bit index field
+};
+inline VolSparseImage encodeVolSparse(const std::vector<VolMember>& ms, const std::vector<uint64_t>& virtualLen) {
+	VolSparseImage im;
+	std::vector<uint8_t> b;
+	uint32_t T = 0;
+	for (auto& m : ms) T += static_cast<uint32_t>(m.name.size()) + 1;
+	uint32_t S = pad4(4 + T), n = static_cast<uint32_t>(ms.size()), L = 14 * n, I = pad4(L);
+	putTag(b, "VOL "); putU32(b, (S + I + 24) | 0x80000000u);
+	putTag(b, "volh"); putU32(b, 0x80000000u);
+	putTag(b, "vols"); putU32(b, S | 0x80000000u);
+	putU32(b, T);
+	std::vector<uint32_t> nameOff;
+	uint32_t o = 0;
+	for (auto& m : ms) { nameOff.push_back(o); b.insert(b.end(), m.name.begin(), m.name.end()); b.push_back(0); o += static_cast<uint32_t>(m.name.size()) + 1; }
+	while (b.size() < 24 + S) b.push_back(0);
+	putTag(b, "voli"); putU32(b, L | 0x80000000u);
+	uint64_t off = 32ull + S + I;
+	for (uint32_t i = 0; i < n; ++i) {
+		uint64_t len = virtualLen[i] ? virtualLen[i] : ms[i].stored.size();
+		im.blockOffsets.push_back(off);
+		if (off > 0xFFFFFFFFull || len > 0x7FFFFFFFull) im.representable = false;
+		putU32(b, nameOff[i]); putU32(b, static_cast<uint32_t>(off)); putU32(b, virtualLen[i] ? static_cast<uint32_t>(virtualLen[i]) : ms[i].size); putU16(b, ms[i].kind);
+		off = (off + 8 + len + 3) & ~3ull;
+	}
+	while (b.size() < 32ull + S + I) b.push_back(0);
+	im.pieces.push_back({0, b});
+	for (uint32_t i = 0; i < n; ++i) {
+		uint64_t len = virtualLen[i] ? virtualLen[i] : ms[i].stored.size();
+		std::vector<uint8_t> blk;
+		putTag(blk, "VBLK"); putU32(blk, static_cast<uint32_t>(len) | 0x80000000u);
+		if (!virtualLen[i]) blk.insert(blk.end(), ms[i].stored.begin(), ms[i].stored.end());
+		im.pieces.push_back({im.blockOffsets[i], blk});
+	}
+	im.total = off;
+	return im;
+}
+
 struct VolEntry { uint32_t nameOff, blockOff, size; uint16_t kind; };
 struct VolParse {
 	std::vector<std::string> problems; // "clause: text"
